@@ -8,7 +8,7 @@ ROOT = os.path.dirname(os.path.dirname(os.path.abspath(__file__)))
 TABLE = [
     ("C19", r"radau|bdf", r"scale\.|restart\.", ["modified_solution_doubling"]),
     ("C09", r"solout", r"exact_zero", ["event_function_scale"]),
-    ("C08", r"solout", r"exact_zero", ["event_function_scale"]),
+    ("C08", r"solout", r"exact_zero|event_state|support", ["event_at_step_start_state", "event_function_scale"]),
     ("C08", r"solout", r"events\.|process\.|detect\.", ["events_multi_in_step"]),
     ("C05", r"solout", r"teval\.|support", ["teval_backward_endpoints", "tiny_time_scale", "teval_terminal"]),
     ("C03", r"dispatch_A", r"zero_length|skipped", ["tiny_time_scale", "zero_length_dense"]),
@@ -31,7 +31,7 @@ TABLE = [
     ("C06", r"radau|bdf", r"dense\.|interp|hist\.", ["dense_end_points", "radau_interpolant_interval"]),
     ("C19", r"radau", r"interpolant_interval|dense\.", ["radau_interpolant_interval"]),
     ("C06", r".*", r"dense\.|interp\.", ["event_interpolant_right_end"]),
-    ("C18", r".*", r"nfev|naccpt|nstep|njev", ["counters"]),
+    ("C18", r".*", r"nfev|naccpt|nstep|njev", ["counters", "modified_solution_counts"]),
     ("C19", r".*", r"fsal|proto\.|naccpt", ["counters", "modified_solution_doubling"]),
     ("C19", r"radau|bdf|rk|dp", r".*", ["modified_solution_doubling", "initial_modified_solution"]),
     ("C02", r".*", r"fsal", ["counters"]),
@@ -47,7 +47,7 @@ TABLE = [
     ("C09", r".*", r"brent", ["brent_stays_in_bracket"]),
     ("C09", r".*", r".*", ["events_order_independent", "events_with_late_teval", "teval_terminal"]),
     ("C10", r".*", r".*", ["teval_terminal", "events_multi_in_step", "events_with_late_teval"]),
-    ("C12", r".*", r".*", ["output_options"]),
+    ("C12", r".*", r".*", ["output_options", "radau_dense_flag_invariance"]),
     ("C13", r".*", r"err\.|norm\.", ["duplication_invariance"]),
     ("C13", r".*", r"step\.|hinit|dir", ["time_reflection", "pow2_scaling"]),
     ("C13", r".*", r".*", ["radau_scalar_vector_tol", "duplication_invariance", "time_reflection", "pow2_scaling", "event_reflection"]),
